@@ -138,6 +138,17 @@ theorem publishTo_holds : ∀ (fuel : Nat) (g : G) (n idx : Nat) (s : Sub),
                       | nil => intro a h; exact h
                       | cons q qs ihq => intro a h; simp only [List.foldl_cons, h]; exact ihq a h
                     rw [hkeep ps _ hstep] at hfin; cases hfin
+                  | segs m =>
+                    exfalso
+                    have hkeep : ∀ (qs : List (Nat × Nat)) (a : G × Res), a.2 = .segs m →
+                        (qs.foldl (fun (acc : G × Res) t => match acc.2 with
+                          | .ok => publishTo k acc.1 t.1 t.2 s
+                          | _ => acc) a).2 = .segs m := by
+                      intro qs
+                      induction qs with
+                      | nil => intro a h; exact h
+                      | cons q qs ihq => intro a h; simp only [List.foldl_cons, h]; exact ihq a h
+                    rw [hkeep ps _ hstep] at hfin; cases hfin
                 exact holdsUp_same _ _ (hsame'.symm.trans r1) r2 (ih acc.1 t'.1 t'.2 s hok)
               · exact r3 t' ht'
             | err e =>
@@ -159,6 +170,18 @@ theorem publishTo_holds : ∀ (fuel : Nat) (g : G) (n idx : Nat) (s : Sub),
                   (qs.foldl (fun (acc : G × Res) t => match acc.2 with
                     | .ok => publishTo k acc.1 t.1 t.2 s
                     | _ => acc) a).2 = .node m := by
+                intro qs
+                induction qs with
+                | nil => intro a h; exact h
+                | cons q qs ihq => intro a h; simp only [List.foldl_cons, h]; exact ihq a h
+              rw [hkeep ps acc hacc] at hfin; cases hfin
+            | segs m =>
+              exfalso
+              simp only [hacc] at hfin
+              have hkeep : ∀ (qs : List (Nat × Nat)) (a : G × Res), a.2 = .segs m →
+                  (qs.foldl (fun (acc : G × Res) t => match acc.2 with
+                    | .ok => publishTo k acc.1 t.1 t.2 s
+                    | _ => acc) a).2 = .segs m := by
                 intro qs
                 induction qs with
                 | nil => intro a h; exact h
@@ -279,6 +302,7 @@ theorem register_holds (g : G) (f i p pi : Nat) (g' : G) (h : register g f i p p
               | ok => exact absurd ha h
               | err e => exact ihq a h
               | node m => exact ihq a h
+              | segs m => exact ihq a h
           cases hacc : acc.2 with
           | ok =>
             simp only [hacc] at hfin ⊢
@@ -299,6 +323,11 @@ theorem register_holds (g : G) (f i p pi : Nat) (g' : G) (h : register g f i p p
             rw [hkeep ss acc (by rw [hacc]; intro h; cases h)] at hfin
             rw [hacc] at hfin; cases hfin
           | node m =>
+            exfalso
+            simp only [hacc] at hfin
+            rw [hkeep ss acc (by rw [hacc]; intro h; cases h)] at hfin
+            rw [hacc] at hfin; cases hfin
+          | segs m =>
             exfalso
             simp only [hacc] at hfin
             rw [hkeep ss acc (by rw [hacc]; intro h; cases h)] at hfin
